@@ -48,6 +48,11 @@ def scenario_strategy(tier, kinds=("interior", "interior", "boundary", "boundary
         case["gq"] = draw(st.integers(0, 10 ** 6))
         case["expo"] = draw(st.sampled_from([0.5, 2.0, 3.0]))
         case["ratio"] = draw(st.sampled_from([0.0, 0.25, 0.5, 1.0]))
+        # the domain is first evaluated with its (single) parameter row, `D(**row)`, and the result is
+        # sampled without parameters: the sample must lie in the set of that row
+        case["evaluate"] = bool(geo.nrows(case["prows"]) >= 1 and draw(st.integers(0, 4)) == 0)
+        if case["evaluate"]:
+            case["prows"] = {kk: v[:1] for kk, v in case["prows"].items()}
         return case
     return s()
 
@@ -122,8 +127,22 @@ def run_scenario(spec, ctx, D=None):
     if D is None:
         with ctx.lib("construct", feature=top):
             D = build.domain(E)
+    ev = bool(spec.get("evaluate")) and k == 1
+    if ev and rg.has(E, lambda n_: n_["t"] in ("bleft", "bright") and bool(rg.pvars(n_["a"]["lo"] if n_["t"] == "bleft" else n_["a"]["hi"]))):
+        # evaluating a one-sided interval boundary whose own bound is parameter-dependent is known finding
+        # D25 (listed under C17, where it is checked and reported): sampled with the parameter row instead
+        ev = False
+        ctx.event("evaluate-skipped:D25")
+    lib_prows = prows
+    if ev:
+        data = {v: torch.tensor(r[:1], dtype=torch.float32).reshape(1, -1) for v, r in prows.items()}
+        with ctx.lib("partial-evaluation", feature=top):
+            D = D(**data)
+        lib_prows = {}
+        pc += "|evaluated"
+        out.tag = pc
     out.domain = D
-    params = build.params_points(prows)
+    params = build.params_points(lib_prows)
     penv = build.params_env(prows)
     dvars = [v for v, _ in rg.space_vars(geo._strip_boundary(E))]
 
@@ -138,7 +157,11 @@ def run_scenario(spec, ctx, D=None):
         c = {"points": P, "n": n_req, "k": k, "kind": kind, "param_cols": has_param_cols, "env": None,
              "vars": list(P.space.keys())}
         rows = len(P)
-        if has_param_cols:
+        if ev:
+            c["param_cols"] = False
+            if all(v in P.space.keys() for v in dvars):
+                c["env"] = build.points_env(P, geo.repeat_env(penv, rows))
+        elif has_param_cols:
             if all(v in P.space.keys() for v in list(prows.keys()) + dvars):
                 c["env"] = build.points_env(P)
         elif pen is not None:
@@ -153,7 +176,7 @@ def run_scenario(spec, ctx, D=None):
     d = None
     if path.endswith("-d") or "-d-" in path:
         try:
-            vol = library_volume(D, prows)
+            vol = library_volume(D, lib_prows)
         except Exception:      # noqa: BLE001 - volume problems are C10's business
             out.skipped = "volume-raises"
             return out
@@ -184,12 +207,12 @@ def run_scenario(spec, ctx, D=None):
         how = "random" if "random" in path else "grid"
         with ctx.lib(path, feature=pc, budget_calls=bud):
             if d is None:
-                P, pen = geo.lib_sample(D, how, n, prows)
+                P, pen = geo.lib_sample(D, how, n, lib_prows)
             else:
                 fn = D.sample_random_uniform if how == "random" else D.sample_grid
                 P = fn(d=d, params=params)
                 pen = geo.repeat_env(penv, len(P)) if k else {}
-        record(P, n if d is None else None, path, pen if k else None)
+        record(P, n if d is None else None, path, pen if (k and not ev) else None)
         return out
 
     # ---------------- point samplers
@@ -237,7 +260,7 @@ def run_scenario(spec, ctx, D=None):
             loss = torch.tensor(gen.random(len(P)), dtype=torch.float32)
             # the parameter rows may change from call to call (kept points stay paired with the
             # rows they were sampled for: the returned parameter columns say which)
-            if prows and spec["gq"] % 2 == 0:
+            if lib_prows and spec["gq"] % 2 == 0:
                 moved = {kk: [[min(1.0, max(0.0, x + 0.17 * (it + 1))) for x in r] for r in v] for kk, v in prows.items()}
                 params_it = build.params_points(moved)
                 hist.append(moved)
@@ -336,4 +359,8 @@ def pinned_scenarios(seed):
                     out.append({"dom": {"E": EE, "kind": kind, "pvars": sorted(fv), "lattice": False, "far": False},
                                 "prows": prows, "rng": seed * 1000 + i, "path": path, "n": n, "m": 23,
                                 "fq": 0.7, "faxis": i % 2, "gq": i, "expo": 2.0, "ratio": 0.5})
+                    if fv and n == 37 and path in ("dom-random-n", "dom-grid-n", "S-grid-n", "S-random-d"):
+                        # the same shape evaluated with its parameter row first, then sampled without parameters
+                        i += 1
+                        out.append(dict(out[-1], prows={"p": [[0.6]]}, rng=seed * 1000 + i, evaluate=True))
     return out
